@@ -24,6 +24,11 @@ CHECKS = {
    "Every schedule with <=2 (quick) / <=3 (thorough) preemptions of token creation, key-store reload and a JWKS read through the management handler is executed on the real signer code (scheduling point before every statement and lock operation); every token must verify under the key published for its kid within one complete published key set and respect real-time order w.r.t. the reload; the full configuration product checks system claims, key id/algorithm and absence of private JWK members against the body of the real JWKS endpoint.",
    "go-jose and key parsing run atomically between scheduling points (closed by the dynamic race pass); the key file is switched before the reload thread starts; verification of tokens uses go-jose's verifier with keys taken from the JWKS body.",
    "DESIGN.md 4 C16"),
+ "C12": ("exploration", "enum",
+   "bounded exhaustive enumeration of error chains x wrappers x status overrides x verbose x Accept through the real HTTP and gRPC error translators in isolation and through the three assembled services with real error-handler mechanisms",
+   "Full product of error values (12 error atoms, chains of head + <=2 causes [3 thorough], fmt/Join wrappers, with/without context) x 9 override sets x verbose x 9 Accept headers on both translators, and the assembled decision/proxy/Envoy services with real rules whose scripted steps fail and whose error pipeline is a real default/redirect/www_authenticate handler; oracle is the status table of the statement, agreement between HTTP and gRPC, never 2xx, body only when verbose in a negotiated type.",
+   "Which of several different heimdall kinds in one chain wins is a don't-care; behaviour when content negotiation fails is recorded, not judged; scripted mechanisms are the only stand-in inside otherwise real rule objects.",
+   "DESIGN.md 4 C12"),
 }
 
 NOT_YET = {
